@@ -448,9 +448,15 @@ where
 
     // reserve space for: parent info, and
     // 8 bytes for SlicePayload::data length
+    // NOTE: A slice produced without a parent may still get one switched in afterwards
+    // (see `apply_parent_ready`), so always reserve the space of the largest parent encoding.
+    let largest_parent: Option<BlockId> = Some((Slot::genesis(), GENESIS_BLOCK_HASH));
     let parent_encoded_len = wincode::serialized_size(&parent)
         .expect("computing serialized size of parent should not fail")
-        as usize;
+        .max(
+            wincode::serialized_size(&largest_parent)
+                .expect("computing serialized size of parent should not fail"),
+        ) as usize;
     let buffer_space = MAX_DATA_PER_SLICE - parent_encoded_len - 8;
     let mut buffer = Vec::<u8>::with_capacity(buffer_space);
     let mut tx_count = 0u64;
